@@ -26,7 +26,7 @@ func init() {
 			"(c) the trees returned by Implies, Eq and Xor have the truth tables of implication, equivalence and exclusive or; " +
 			"(d) where the CNF translation introduces an auxiliary variable for a conjunct of a disjunction, its negation is appended to every clause of the conjunct's translation.",
 		NotDecided: "the exactly-one grid encoding, variable numbering, the translation as a whole (equisatisfiability for every tree); nothing is executed.",
-		Rules:      []ruleFn{ruleR11_1, ruleR11_2, ruleR11_4, ruleR11_5, ruleR11_6, ruleR11_7, ruleR11_8, ruleR11_9},
+		Rules:      []ruleFn{ruleR11_1, ruleR11_2, ruleR11_4, ruleR11_5, ruleR11_6, ruleR11_7, ruleR11_8, ruleR11_9, ruleR11_10, ruleR11_11},
 	})
 }
 
